@@ -48,14 +48,14 @@ func c17r1(r *R) {
 						havePrev, haveNext := false, false
 						idx := instrIndex(u)
 						for i := idx - 1; i >= 0 && !havePrev; i-- {
-							if w, ok := b.Instrs[i].(*ssa.Call); ok && calleeName(w.Common()) == "(*strings.Builder).WriteString" && w.Common().Args[0] == u.Common().Args[0] {
-								prev, havePrev = constString(w.Common().Args[1])
+							if w, ok := b.Instrs[i].(*ssa.Call); ok && calleeName(w.Common()) == "(*strings.Builder).WriteString" && refArgs(w.Common())[0] == refArgs(u.Common())[0] {
+								prev, havePrev = constString(refArgs(w.Common())[1])
 								break
 							}
 						}
 						for i := idx + 1; i < len(b.Instrs) && !haveNext; i++ {
-							if w, ok := b.Instrs[i].(*ssa.Call); ok && calleeName(w.Common()) == "(*strings.Builder).WriteString" && w.Common().Args[0] == u.Common().Args[0] {
-								next, haveNext = constString(w.Common().Args[1])
+							if w, ok := b.Instrs[i].(*ssa.Call); ok && calleeName(w.Common()) == "(*strings.Builder).WriteString" && refArgs(w.Common())[0] == refArgs(u.Common())[0] {
+								next, haveNext = constString(refArgs(w.Common())[1])
 								break
 							}
 						}
@@ -165,12 +165,21 @@ func c17r3(r *R) {
 					return false
 				}
 				n++
-				excl := guardedBy(c.Block(), func(s string) bool { return strings.HasSuffix(s, ".Exclude") && !strings.HasPrefix(s, "!") })
-				incl := guardedBy(c.Block(), func(s string) bool { return strings.HasSuffix(s, ".Exclude") && strings.HasPrefix(s, "!") })
-				va := variadicArgs(c.Common().Args[1])
+				gs := guardsUp(c)
+				excl, incl := false, false
+				for _, s := range gs {
+					if strings.HasSuffix(s, ".Exclude") {
+						if strings.HasPrefix(s, "!") {
+							incl = true
+						} else {
+							excl = true
+						}
+					}
+				}
+				va := variadicArgs(refArgs(c.Common())[1])
 				elemOK := len(va) == 1 && strings.HasSuffix(describe(va[0]), ".Regexp")
 				// ... and by nothing else: any further condition lets an item fall into neither list
-				for _, g := range guardStrings(c.Block()) {
+				for _, g := range gs {
 					gg := strings.TrimLeft(g, "!")
 					if strings.HasSuffix(gg, ".Exclude") || strings.Contains(gg, "builtin len($0)") || strings.HasPrefix(gg, "next(range($0))") {
 						continue
@@ -183,7 +192,7 @@ func c17r3(r *R) {
 				}
 				if want == "exclude" && !excl || want == "include" && !incl || !elemOK {
 					okAll = false
-					why = "append at " + r.rel(c.Pos()) + " feeds the " + want + " argument but is guarded by " + strings.Join(guardStrings(c.Block()), ",") + " elem=" + describe(c.Common().Args[1])
+					why = "append at " + r.rel(c.Pos()) + " feeds the " + want + " argument but is guarded by " + strings.Join(gs, ",") + " elem=" + describe(refArgs(c.Common())[1])
 				}
 				return false
 			})
